@@ -4,6 +4,7 @@ import Hive.Model.SyncMutexWait
 import Hive.Model.SyncMutexWaitV
 import Hive.Model.SyncMutexComp
 import Hive.Base.Proto
+import Std.Data.HashSet
 /-!
 # C17 driver: the models as executable oracles for traces recorded from the implementation
 
@@ -40,20 +41,20 @@ def succs (S : Sys σ τ) (c : Cfg σ τ) : List (Cfg σ τ) := succsAux S c.1 [
 
 /-- Depth-first exploration of every interleaving; collects the configurations without successor.
 The Boolean is false when the fuel ran out. -/
-def explore (S : Sys σ τ) (key : Cfg σ τ → κ) [BEq κ] :
-    Nat → List (Cfg σ τ) → List κ → List (Cfg σ τ) → List (Cfg σ τ) × Bool
+def explore (S : Sys σ τ) (key : Cfg σ τ → κ) [BEq κ] [Hashable κ] :
+    Nat → List (Cfg σ τ) → Std.HashSet κ → List (Cfg σ τ) → List (Cfg σ τ) × Bool
   | 0, work, _, acc => (acc, work.isEmpty)
   | _ + 1, [], _, acc => (acc, true)
   | fuel + 1, c :: work, seen, acc =>
     if seen.contains (key c) then explore S key fuel work seen acc
     else
       let ss := succs S c
-      if ss.isEmpty then explore S key fuel work (key c :: seen) (c :: acc)
-      else explore S key fuel (ss ++ work) (key c :: seen) acc
+      if ss.isEmpty then explore S key fuel work (seen.insert (key c)) (c :: acc)
+      else explore S key fuel (ss ++ work) (seen.insert (key c)) acc
 
-def quiescentFrom (S : Sys σ τ) (key : Cfg σ τ → κ) [BEq κ] (starts : List (Cfg σ τ)) :
+def quiescentFrom (S : Sys σ τ) (key : Cfg σ τ → κ) [BEq κ] [Hashable κ] (starts : List (Cfg σ τ)) :
     List (Cfg σ τ) × Bool :=
-  explore S key 200000 starts [] []
+  explore S key 200000 starts {} []
 
 end explore
 
@@ -216,9 +217,13 @@ def wPushWaitStart (c : WCfg) (t m : Nat) (u : Option (Nat × Int)) : Option WCf
   | none => pure c1
   | some (u, thr) => wArriveS c1 u [.waitBelow thr]
 
-/-- Generations are unbounded counters that do not matter for equality of futures once nobody is parked
-with an old one; keeping them in the key is sound (only less sharing). -/
-def wKey (c : WCfg) : WCfg := c
+/-- The exploration key.  Generations are unbounded counters that do not matter for equality of futures once nobody
+is parked with an old one; keeping them in the key is sound (only less sharing).  The ghosts `popped` and `log` do not
+influence any transition; `log` and `rets` are observed for a Counter only, `popped` never (the observation has the elements per
+goroutine): configurations that differ only there have the same observable futures and are explored once. -/
+def wKey (stack : Bool) (c : WCfg) : WCfg :=
+  ({ c.1 with popped := [], log := if stack then [] else c.1.log },
+   if stack then c.2.map (fun t => { t with rets := [] }) else c.2)
 
 /-! ## Exclusion on a grant/release trace -/
 
@@ -322,7 +327,9 @@ def answer {α : Type} (obsOf : α → String) (obs : String) (outs : List α) (
     (ok, "reject " ++ toString outs.length ++ " admissible, e.g. [" ++ (match outs.head? with | some c => obsOf c | none => "none") ++ "]")
   else (ok, "ok")
 
-/-- sequential run of one goroutine: `ok` / `panic` / `block` per call -/
+/-- sequential run of one goroutine: `ok` / `panic` / `block` per call.  A panic is followed by the lock state it
+leaves behind (`writer readers pending`) and `frozen` when the internal mutex stays locked (then nothing can ever be
+granted again, `C17_panic_freezes_lock_state`) -/
 def seqSm : Cfg Mx Th → List Op → List String
   | _, [] => []
   | c, op :: ops =>
@@ -333,7 +340,9 @@ def seqSm : Cfg Mx Th → List Op → List String
       | [c2] =>
         match c2.2.map smStatus with
         | ['i'] => "ok" :: seqSm c2 ops
-        | ['d'] => ["panic"]
+        | ['d'] =>
+          ["panic", (if c2.1.writer then "1" else "0"), toString c2.1.readers, toString c2.1.pending,
+            (if c2.1.m then "frozen" else "live")]
         | _ => ["block"]
       | _ => ["nondet"]
 
@@ -351,17 +360,26 @@ def seqDag (nEnt : Nat) : Cfg Dag.DSh Dag.DTh → List Dag.DOp → List String
         | _ => ["block"]
       | _ => ["nondet"]
 
-def seqComp (nEnt : Nat) : Cfg Comp.CSh Comp.CTh → List Dag.DOp → List String
-  | _, [] => []
-  | c, op :: ops =>
-    match compArrive c 0 op with
+/-- consumer counts and registry bits of the composed model -/
+def compReg (nEnt : Nat) (c : Cfg Comp.CSh Comp.CTh) : String :=
+  joinNat ((List.range nEnt).map c.1.cnt) ++ ":" ++ bits ((List.range nEnt).map (fun x => (c.1.ent x).isSome))
+
+/-- Sequential calls against the composed model.  The run goes on after a panic when the registry mutex `d.Mutex` is
+free again (`live:` + the registry as the panic left it; the calls that follow are issued by a fresh goroutine `i+1`);
+a panic inside `Unlock`'s `unregisterMutex` leaves `d.Mutex` locked: `frozen`. -/
+def seqComp (nEnt : Nat) : Cfg Comp.CSh Comp.CTh → Nat → List Dag.DOp → List String
+  | _, _, [] => []
+  | c, i, op :: ops =>
+    match compArrive c i op with
     | none => ["stuck"]
     | some c1 =>
       match (quiescentFrom Comp.sys (compKey nEnt) [c1]).1 with
       | [c2] =>
-        match c2.2.map compStatus with
-        | ['i'] => "ok" :: seqComp nEnt c2 ops
-        | ['d'] => ["panic"]
+        match (c2.2[i]?).map compStatus with
+        | some 'i' => "ok" :: seqComp nEnt c2 i ops
+        | some 'd' =>
+          if c2.1.dm then ["panic", "frozen"]
+          else "panic" :: ("live:" ++ compReg nEnt c2) :: seqComp nEnt (c2.1, c2.2 ++ [Comp.CTh.new []]) (i + 1) ops
         | _ => ["block"]
       | _ => ["nondet"]
 
@@ -420,8 +438,8 @@ def stepLine (st : St) (toks : List String) : St × String :=
     match st, i.toNat?, parseWOp opToks with
     | .wm k cs, some i, some op =>
       let starts := cs.filterMap (fun c => wArrive c i op)
-      let (outs, complete) := quiescentFrom WaitV.sys wKey starts
-      let (ok, ans) := answer (wObs k) (" ".intercalate obs) (dedupBy wKey outs []) complete
+      let (outs, complete) := quiescentFrom WaitV.sys (wKey k) starts
+      let (ok, ans) := answer (wObs k) (" ".intercalate obs) (dedupBy (wKey k) outs []) complete
       (.wm k ok, ans)
     | _, _, _ => (st, "bad-op")
   | "wg" :: a :: b :: rest =>
@@ -429,8 +447,8 @@ def stepLine (st : St) (toks : List String) : St × String :=
     match st, a.toNat?, b.toNat? with
     | .wm k cs, some a, some b =>
       let starts := cs.filterMap (fun c => wGapStart c a b)
-      let (outs, complete) := quiescentFrom WaitV.sys wKey starts
-      let (ok, ans) := answer (wObs k) (" ".intercalate obs) (dedupBy wKey outs []) complete
+      let (outs, complete) := quiescentFrom WaitV.sys (wKey k) starts
+      let (ok, ans) := answer (wObs k) (" ".intercalate obs) (dedupBy (wKey k) outs []) complete
       (.wm k ok, ans)
     | _, _, _ => (st, "bad-op")
   | "wq" :: t :: m :: u :: thr :: rest =>
@@ -443,8 +461,8 @@ def stepLine (st : St) (toks : List String) : St × String :=
     match st, t.toNat?, m.toNat?, second with
     | .wm k cs, some t, some m, some second =>
       let starts := cs.filterMap (fun c => wPushWaitStart c t m second)
-      let (outs, complete) := quiescentFrom WaitV.sys wKey starts
-      let (ok, ans) := answer (wObs k) (" ".intercalate obs) (dedupBy wKey outs []) complete
+      let (outs, complete) := quiescentFrom WaitV.sys (wKey k) starts
+      let (ok, ans) := answer (wObs k) (" ".intercalate obs) (dedupBy (wKey k) outs []) complete
       (.wm k ok, ans)
     | _, _, _, _ => (st, "bad-op")
   | "tr" :: evs =>
@@ -464,7 +482,7 @@ def stepLine (st : St) (toks : List String) : St × String :=
     | none => (st, "bad-op")
   | "seq" :: "dagc" :: ops =>
     match parseDOps ops with
-    | some ops => (st, " ".intercalate (seqComp 8 (Comp.CSh.init, [Comp.CTh.new []]) ops))
+    | some ops => (st, " ".intercalate (seqComp 8 (Comp.CSh.init, [Comp.CTh.new []]) 0 ops))
     | none => (st, "bad-op")
   | "wt" :: v :: evs =>
     match v.toInt?, evs.mapM parseWEv with
